@@ -1,6 +1,7 @@
 package wasp
 
 import (
+	"github.com/vx-labs/mqtt-protocol/packet"
 	rt "github.com/vx-labs/wasp/v4/zzsymxrt"
 )
 
@@ -72,4 +73,40 @@ func symxC20Shutdown() {
 	rt.Quiesce()
 	rt.Assert(b.local.Get("sid") == nil, "C20.shutdown.session_gone")
 	rt.Assert(len(b.state.SessionMetadatas().All()) == 0, "C20.shutdown.record_gone")
+}
+
+// symxC20Writer: a new QoS 1 delivery (writer loop) beside the expiry sweep re-sending an
+// earlier one (ticker goroutine) for the same session: identifiers stay distinct, every packet
+// reaches the connection whole, nothing is lost.
+func symxC20Writer() {
+	b := symxNewBroker(1, 1)
+	_, c := b.session("s", "c", "m", 30)
+	b.writer.midPool.Get() // identifier 0 is never used on the wire
+	pubA := &packet.Publish{Header: &packet.Header{}, Topic: []byte("m/t"), Payload: []byte("A")}
+	pubB := &packet.Publish{Header: &packet.Header{}, Topic: []byte("m/t"), Payload: []byte("B")}
+	b.writer.send(b.ctx, []string{"s"}, []int32{1}, pubA)
+	symxClockMs += 4000
+	symxTick()
+	sec, nsec := 1600000000+symxClockMs/1000, (symxClockMs%1000)*1000000
+	symxPar(func() {
+		b.writer.mtx.Lock()
+		b.writer.send(b.ctx, []string{"s"}, []int32{1}, pubB)
+		b.writer.mtx.Unlock()
+	}, func() { b.expire(sec, nsec) })
+	pubs := symxPublishes(c.written())
+	rt.Assert(len(pubs) == 3, "C20.writer.every_packet_written_whole")
+	var idA, idB int32 = -1, -1
+	nA, nB := 0, 0
+	for _, pk := range pubs {
+		if string(pk.Payload) == "A" {
+			nA++
+			rt.Assert(idA < 0 || idA == pk.MessageId, "C20.writer.retransmission_keeps_its_identifier")
+			idA = pk.MessageId
+		} else {
+			nB++
+			idB = pk.MessageId
+		}
+	}
+	rt.Assert(nA == 2 && nB == 1, "C20.writer.retransmission_and_new_delivery_both_happen")
+	rt.Assert(idA != idB && idA >= 1 && idB >= 1, "C20.writer.identifiers_distinct")
 }
